@@ -220,6 +220,12 @@ class ConcurrentExecutor(ABC, Generic[CallableType, ResultType]):
             "▶️ Executing concurrent operation, items: %d", len(self.executables)
         )
 
+        if not self.executables:
+            # Nothing to run: no branch would ever signal completion (and a thread pool cannot be
+            # created with zero workers), so the result is decided right away.
+            self.executables_with_state = []
+            return self._create_result()
+
         max_workers = self.max_concurrency or len(self.executables)
 
         self.executables_with_state = [
